@@ -158,7 +158,33 @@ def _check_method(ctx, result, module, cls, name, key_param, fwd_args, fwd_kwarg
                            construct=f"def {name}"))
 
 
+def _get_as_subscript(expr, step):
+    """``T.get(k)`` that the path has established to be not None is the entry ``T[k]`` (the .get + None-test spelling of
+    a membership guard); rewritten bottom-up so that nested look-ups (UFUNCS.get(REDUCE.get(ufunc))) are covered."""
+    import copy
+
+    known = {U(node) for node, pol in step.fact_items()
+             if pol is False and isinstance(node, ast.Compare) and len(node.ops) == 1 and isinstance(node.ops[0], ast.Is)
+             and isinstance(node.comparators[0], ast.Constant) and node.comparators[0].value is None
+             for node in [node.left]}
+    if not known:
+        return expr
+
+    class T(ast.NodeTransformer):
+        def visit_Call(self, node):
+            before = U(node)
+            self.generic_visit(node)
+            if isinstance(node.func, ast.Attribute) and node.func.attr == "get" and len(node.args) == 1 and not node.keywords \
+                    and before in known:
+                return ast.copy_location(ast.Subscript(value=node.func.value, slice=node.args[0], ctx=ast.Load()), node)
+            return node
+
+    return T().visit(copy.deepcopy(expr))
+
+
 def _is_forward(ctx, module, step, expanded, key_param, fwd_args, fwd_kwargs, method_param):
+    if expanded is not None:
+        expanded = _get_as_subscript(expanded, step)
     if not isinstance(expanded, ast.Call) or is_S(expanded):
         return False, ("protocol method returns " + (U(expanded) if expanded is not None else "None")
                        + " instead of <registry>[callable](*inputs, **kwargs)")
